@@ -1,6 +1,7 @@
 package mem
 
 import "container/list"
+import "github.com/inbucket/inbucket/v3/pkg/verifhook"
 
 type msgDone struct {
 	msg  *Message
@@ -13,6 +14,7 @@ func (s *Store) maxSizeEnforcer(maxSize int64) {
 	all := &list.List{}
 	curSize := int64(0)
 	for {
+		verifhook.Point("mem.enf.idle", "")
 		select {
 		case md, ok := <-s.incoming:
 			if !ok {
@@ -20,6 +22,7 @@ func (s *Store) maxSizeEnforcer(maxSize int64) {
 			}
 			// Add message to all.
 			m := md.msg
+			verifhook.Point("mem.enf.incoming", m.id)
 			if m.removed {
 				// Already deleted by another client, nothing to account for.
 				close(md.done)
@@ -29,6 +32,7 @@ func (s *Store) maxSizeEnforcer(maxSize int64) {
 			m.el = el
 			curSize += int64(m.Size())
 			for curSize > maxSize {
+				verifhook.Point("mem.enf.evict", "")
 				// Remove oldest message.
 				el := all.Front()
 				all.Remove(el)
@@ -44,6 +48,7 @@ func (s *Store) maxSizeEnforcer(maxSize int64) {
 			}
 			// Remove message from all.
 			m := md.msg
+			verifhook.Point("mem.enf.remove", m.id)
 			if m.el == nil {
 				// Not registered yet, its pending registration must be skipped.
 				m.removed = true
@@ -63,18 +68,21 @@ func (s *Store) enforcerDeliver(m *Message) {
 			done: make(chan struct{}),
 		}
 		s.incoming <- md
+		verifhook.Point("mem.deliver.sent", m.id)
 		<-md.done
 	}
 }
 
 // enforcerRemove sends removal to enforcer if configured, and waits for completion.
 func (s *Store) enforcerRemove(m *Message) {
+	verifhook.Point("mem.enfremove", m.id)
 	if s.remove != nil {
 		md := &msgDone{
 			msg:  m,
 			done: make(chan struct{}),
 		}
 		s.remove <- md
+		verifhook.Point("mem.remove.sent", m.id)
 		<-md.done
 	}
 }
